@@ -29,6 +29,13 @@ func TestC08NodeRouting(t *testing.T) {
 }
 
 // TestC02NodeReemits is the same scenario under C02: every frame the node re-emits carries X.25 over what it emits.
+// TestC06NodeRestamps: a keyed node whose router passes every received frame through FixFrame before it forwards
+// it (the documented way of taking responsibility for a frame): whatever link id and timestamp a frame carries,
+// what leaves each link under the signed flag verifies under the node's outgoing key.
+func TestC06NodeRestamps(t *testing.T) {
+	nodeRoutingProperty(t, "C06", "TestC06NodeRestamps", evid.N(120, 500))
+}
+
 func TestC02NodeReemits(t *testing.T) {
 	nodeRoutingProperty(t, "C02", "TestC02NodeReemits", evid.N(120, 500))
 }
@@ -123,7 +130,7 @@ func drawRoutedFrame(t *rapid.T, ids []uint32, k int) routedFrame {
 	if v2 && rapid.IntRange(0, 4).Draw(t, "signed") == 0 {
 		f.Incompat = 1
 		f.Checksum = f.ChecksumFor(l.CRCExtra)
-		f.LinkID = byte(rapid.IntRange(0, 255).Draw(t, "link"))
+		f.LinkID = byte(rapid.OneOf(rapid.IntRange(0, 255), rapid.SampledFrom([]int{0, 0, 255})).Draw(t, "link"))
 		f.Timestamp = uint64(5000000 + k)
 		f.Sig = f.SignatureFor([32]byte{0x77, 1}) // signed by somebody upstream; this node has no incoming key
 		forms += "+signed"
@@ -133,13 +140,24 @@ func drawRoutedFrame(t *rapid.T, ids []uint32, k int) routedFrame {
 
 func nodeRoutingProperty(t *testing.T, pid, testName string, cases int) {
 	rec := evid.New(t, pid, "a Node with a dialect, output version 1 or 2 (generated, independent of the frames' versions) and optionally an outgoing key routes 3..25 generated frames from one custom channel to two others (WriteFrameExcept, or WriteFrameTo each): v1 and v2 frames, compatibility flags, canonical / untruncated / all-zero length-0 payloads, junk behind string terminators, frames signed upstream, ids unknown to the dialect; on each outgoing link every frame must appear once, in order, with the received header fields, a checksum that is X.25 over the emitted bytes plus CRC_EXTRA, a payload the reference decodes to the same message as the received one, the received signature block, and unknown ids byte for byte; non-trivial = a frame whose version differs from the node's output version and whose payload is not canonical or ends in zero; distinct by hash of the fed bytes")
-	rec.Require("frame-version-differs-from-node-output", "non-canonical-payload", "unknown-id", "signed-upstream", "v1-node", "v2-node")
+	restamp := pid == "C06"
+	if restamp {
+		rec.Require("non-canonical-payload", "unknown-id", "signed-upstream", "v2-node", "restamped-frame-with-link-id-0")
+	} else {
+		rec.Require("frame-version-differs-from-node-output", "non-canonical-payload", "unknown-id", "signed-upstream", "v1-node", "v2-node")
+	}
 	ids := sortedIDs()
 	evid.Check(t, rec, cases, func(t *rapid.T) {
 		drawNodeInit(t)
 		outV2 := rapid.Bool().Draw(t, "node_out_v2")
 		withKey := outV2 && rapid.IntRange(0, 3).Draw(t, "node_outkey") == 0
 		useTo := rapid.Bool().Draw(t, "forward_with_WriteFrameTo")
+		// the router re-stamps (FixFrame) what it forwards: always under C06, sometimes otherwise
+		fix := restamp || rapid.IntRange(0, 3).Draw(t, "router_calls_FixFrame") == 0
+		if restamp {
+			outV2, withKey = true, true
+		}
+		nodeKey := [32]byte{0x31, 2, 3}
 		nf := rapid.IntRange(3, 25).Draw(t, "nframes")
 		var frames []routedFrame
 		var fed []byte
@@ -148,7 +166,7 @@ func nodeRoutingProperty(t *testing.T, pid, testName string, cases int) {
 			frames = append(frames, rf)
 			fed = append(fed, rf.f.Bytes()...)
 		}
-		desc := fmt.Sprintf("node outV2=%v outKey=%v forwardWithTo=%v frames=%d", outV2, withKey, useTo, nf)
+		desc := fmt.Sprintf("node outV2=%v outKey=%v forwardWithTo=%v routerCallsFixFrame=%v frames=%d", outV2, withKey, useTo, fix, nf)
 		fail := func(format string, a ...interface{}) {
 			msg := desc + "\n" + fmt.Sprintf(format, a...)
 			evid.ReplayNote(pid, testName, msg)
@@ -164,7 +182,7 @@ func nodeRoutingProperty(t *testing.T, pid, testName string, cases int) {
 			n.OutVersion = gomavlib.V2
 		}
 		if withKey {
-			n.OutKey = keyOf(&[32]byte{0x31, 2, 3})
+			n.OutKey = keyOf(&nodeKey)
 		}
 		if err := initNode(&n); err != nil {
 			t.Fatalf("BROKEN: %v", err)
@@ -179,6 +197,9 @@ func nodeRoutingProperty(t *testing.T, pid, testName string, cases int) {
 				case *gomavlib.EventChannelOpen:
 					chans = append(chans, e.Channel)
 				case *gomavlib.EventFrame:
+					if fix {
+						n.FixFrame(e.Frame) //nolint:errcheck // refused for ids the dialect does not know: forwarded as received
+					}
 					if useTo {
 						for _, c := range chans {
 							if c != e.Channel {
@@ -252,7 +273,17 @@ func nodeRoutingProperty(t *testing.T, pid, testName string, cases int) {
 				if !p.V2 && len(p.Payload) != in.lay.BaseSize {
 					fail("link %d frame %d (%s): a v1 frame goes out with %d payload bytes, v1 payloads have the base size %d", c, k, in.lay.MsgName, len(p.Payload), in.lay.BaseSize)
 				}
-				if in.f.Signed() && (p.LinkID != in.f.LinkID || p.Timestamp != in.f.Timestamp || p.Sig != in.f.Sig) {
+				if in.f.Signed() && fix && withKey {
+					if p.LinkID != in.f.LinkID || p.Timestamp != in.f.Timestamp {
+						fail("link %d frame %d (%s): FixFrame recomputes checksum and signature; link id / timestamp went from %d / %d to %d / %d", c, k, in.lay.MsgName, in.f.LinkID, in.f.Timestamp, p.LinkID, p.Timestamp)
+					}
+					if p.Sig != p.SignatureFor(nodeKey) {
+						fail("link %d frame %d (%s, arrived with link id %d): passed through FixFrame on a node with an outgoing key and forwarded; it leaves as %x under the signed flag, but its signature does not verify under that key", c, k, in.lay.MsgName, in.f.LinkID, b)
+					}
+					if in.f.LinkID == 0 {
+						cls = append(cls, "restamped-frame-with-link-id-0")
+					}
+				} else if in.f.Signed() && (p.LinkID != in.f.LinkID || p.Timestamp != in.f.Timestamp || p.Sig != in.f.Sig) {
 					fail("link %d frame %d (%s): the signature block changed although the frame was forwarded as received", c, k, in.lay.MsgName)
 				}
 			}
